@@ -745,4 +745,117 @@ theorem block_exec_ind (d : Dfsr) (st : Store) (t : Nat) (bs : List Nat) (n a st
         rw [this]
         exact hex''
 
+
+/-! ### all map entries with an indirect word -/
+
+theorem setVals_append (v : List (Option Int)) (i : Nat) (xs ys : List Int) :
+    setVals (setVals v i xs) (i + xs.length) ys = setVals v i (xs ++ ys) := by
+  induction xs generalizing v i with
+  | nil => simp [setVals]
+  | cons x xs ih =>
+    simp only [setVals, List.length_cons, List.cons_append]
+    rw [← ih (v.set i (some x)) (i + 1)]
+    congr 1; omega
+
+theorem setVals_getElem (v : List (Option Int)) (i : Nat) (xs : List Int) (q : Nat) (h : i + xs.length ≤ v.length) :
+    (setVals v i xs)[q]? = if i ≤ q ∧ q < i + xs.length then (xs[q - i]?).map some else v[q]? := by
+  induction xs generalizing v i with
+  | nil => simp [setVals]
+  | cons x xs ih =>
+    simp only [setVals, List.length_cons] at h ⊢
+    rw [ih (v.set i (some x)) (i + 1) (by simp; omega)]
+    by_cases hq : q = i
+    · subst hq
+      have h1 : ¬ (q + 1 ≤ q ∧ q < q + 1 + xs.length) := by omega
+      have h2 : q ≤ q ∧ q < q + (xs.length + 1) := by omega
+      rw [if_neg h1, if_pos h2]
+      simp [List.getElem?_set]; omega
+    · by_cases hin : i + 1 ≤ q ∧ q < i + 1 + xs.length
+      · have h2 : i ≤ q ∧ q < i + (xs.length + 1) := by omega
+        rw [if_pos hin, if_pos h2]
+        have : q - i = (q - (i + 1)) + 1 := by omega
+        rw [this]; rfl
+      · have h2 : ¬ (i ≤ q ∧ q < i + (xs.length + 1)) := by omega
+        rw [if_neg hin, if_neg h2, List.getElem?_set]
+        simp [Ne.symm hq]
+
+/-- the X word of the record at `t`, decoded -/
+def xrecOf (d : Dfsr) (st : Store) (w : Nat) (t : Int) : Int :=
+  match xDecode d.depthRc (beWord (((bytesOf st t.toNat).drop 2).take w)) with
+  | .ok x => x
+  | .error _ => 0
+
+/-- the implied X values of all loaded frames, entry after entry: `prev` is the X of the previously loaded frame -/
+def allXs (sp : Int) (xr : Int → Int) (c : Nat) : List (Int × List Nat) → Option Int → List Int
+  | [], _ => []
+  | e :: rest, prev =>
+    entryXs sp (xr e.1) (e.2.headD 0) c (e.2.length - 1) prev
+      ++ allXs sp xr c rest (entryXs sp (xr e.1) (e.2.headD 0) c (e.2.length - 1) prev).getLast?
+
+theorem entryXs_length (sp xrec : Int) (a step len : Nat) (prev : Option Int) :
+    (entryXs sp xrec a step len prev).length = len + 1 := by simp [entryXs, xsFrom_length]
+
+/-- what the store must hold for one map entry of an indirect-X pass -/
+def EntryOkX (d : Dfsr) (p : Plan) (w : Nat) (st : Store) (c : Nat) (e : Int × List Nat) : Prop :=
+  ∃ a len n bs xrec, e.2 = ap a c (len + 1) ∧ Store.find st e.1.toNat = some bs ∧ bs.head? = some d.dataType ∧
+    bs.length = 2 + w + n * p.frameSize ∧ xDecode d.depthRc (beWord ((bs.drop 2).take w)) = .ok xrec ∧ a + len * c < n
+
+/-- **All map entries with an indirect word** (any channel subset): the implied X vector is `allXs`. -/
+theorem entries_exec_ind (d : Dfsr) (st : Store) (c : Nat) (p : Plan) (w : Nat) (sp : Int) (c0 : Nat) (rest : List Nat)
+    (hi : IndCtx d p w) (hc : 0 < c)
+    (hltc : ∀ x ∈ c0 :: rest, x < d.chans.length) (hsorted : (c0 :: rest).Pairwise (· < ·)) :
+    ∀ (entries : List (Int × List Nat)) (frInt : Nat) (r : Run) (prev : Option Int),
+      (∀ e ∈ entries, EntryOkX d p w st c e) →
+      r.fs.chIdx = c0 :: rest →
+      (∀ row ∈ r.fs.frames, row.length = sumN ((selChans d (c0 :: rest)).map Chan.numValues)) →
+      frInt + (entries.map (·.2.length)).sum ≤ r.fs.frames.length →
+      r.fs.xvec.length = r.fs.frames.length → r.fs.frameSpacing = some sp → PrevOk r.fs.xvec frInt prev →
+      ∃ evs r', genFrameSetEventsAux p (c0 :: rest) entries frInt = .ok evs ∧ execEvs d st evs r = .ok r' ∧
+        r'.fs.chIdx = r.fs.chIdx ∧ r'.fs.frames.length = r.fs.frames.length ∧
+        r'.fs.xvec = setVals r.fs.xvec frInt (allXs sp (xrecOf d st w) c entries prev) := by
+  intro entries
+  induction entries with
+  | nil =>
+    intro frInt r prev _ _ _ _ _ _ _
+    exact ⟨[], r, by simp [genFrameSetEventsAux], by simp [execEvs], rfl, rfl, by simp [allXs, setVals]⟩
+  | cons e rest' ih =>
+    intro frInt r prev hent hch hrows hN hxl hsp hprev
+    obtain ⟨seek, buf⟩ := e
+    obtain ⟨a, len, n, bs, xrec, hbuf, hfind, hhead, hbs, hx, hlast⟩ := hent (seek, buf) (List.mem_cons_self ..)
+    simp only at hbuf hfind
+    subst hbuf
+    simp only [List.map_cons, List.sum_cons, ap_length] at hN
+    obtain ⟨a', b', c', evs1, r1, hsl, hgen, hex, hch1, hsp1, hlen1, hrows1, hxv1⟩ := block_exec_ind d st seek.toNat bs n a c len frInt p w
+      sp xrec c0 rest hi hc hltc hsorted hfind hhead hbs hx hlast r hch hrows (by omega) hxl hsp prev hprev
+    have hxr : xrecOf d st w seek = xrec := by simp [xrecOf, bytesOf, hfind, hx]
+    have hhd : (ap a c (len + 1)).headD 0 = a := by simp [ap, List.range_succ_eq_map]
+    have hXl := entryXs_length sp xrec a c len prev
+    -- the X of the last loaded frame of this entry
+    obtain ⟨lastx, hlastx⟩ : ∃ lx, (entryXs sp xrec a c len prev).getLast? = some lx := by
+      cases hh : (entryXs sp xrec a c len prev).getLast? with
+      | none => rw [List.getLast?_eq_none_iff] at hh; rw [hh] at hXl; simp at hXl
+      | some lx => exact ⟨lx, rfl⟩
+    have hprev1 : PrevOk r1.fs.xvec (frInt + (len + 1)) (some lastx) := by
+      right
+      refine ⟨by omega, lastx, rfl, ?_⟩
+      rw [hxv1, setVals_getElem _ _ _ _ (by rw [hXl]; omega)]
+      have : frInt ≤ frInt + (len + 1) - 1 ∧ frInt + (len + 1) - 1 < frInt + (entryXs sp xrec a c len prev).length := by
+        rw [hXl]; omega
+      rw [if_pos this, show frInt + (len + 1) - 1 - frInt = len by omega]
+      rw [List.getLast?_eq_getElem?, hXl] at hlastx
+      simp only [Nat.add_sub_cancel] at hlastx
+      rw [hlastx]; rfl
+    obtain ⟨evs2, r2, hgen2, hex2, hch2, hlen2, hxv2⟩ := ih (frInt + (len + 1)) r1 (some lastx)
+      (fun e he => hent e (List.mem_cons_of_mem _ he)) (by rw [hch1]; exact hch) hrows1 (by rw [hlen1]; omega)
+      (by rw [hxv1, setVals_length, hlen1]; exact hxl) (by rw [hsp1]; exact hsp) hprev1
+    refine ⟨⟨.seekLr, seek.toNat, none, none, none⟩ :: renumber (ap a c (len + 1)) frInt evs1 0 ++ evs2, r2, ?_, ?_,
+      by rw [hch2, hch1], by rw [hlen2, hlen1], ?_⟩
+    · simp only [genFrameSetEventsAux, hsl, hgen, ap_length, hgen2]
+    · rw [execEvs_append, hex]; exact hex2
+    · rw [hxv2, hxv1]
+      simp only [allXs, hxr, hhd, ap_length, Nat.add_sub_cancel, hlastx]
+      have := setVals_append r.fs.xvec frInt (entryXs sp xrec a c len prev) (allXs sp (xrecOf d st w) c rest' (some lastx))
+      rw [hXl] at this
+      exact this
+
 end TD.C06
